@@ -129,7 +129,12 @@ def gen_case(rng):
         for _ in range(rng.randrange(1, 4)):
             c = rng.random()
             if c < 0.4:
-                body.append(("op", rng.choice(["push1", "push2"]), rand_operand(rng, params, local, outer)))
+                # a constant operand is range-checked by the parser even in a macro that is never invoked, so a
+                # fixed-width push only gets a constant it can hold (compound operands reach 200*200): the
+                # expansion oracle drops unused definitions and would otherwise demand more than the property says
+                e = rand_operand(rng, params, local, outer)
+                compound = e[0] in ("+", "-", "*", "/")
+                body.append(("op", "push2" if compound else rng.choice(["push1", "push2"]), e))
             elif c < 0.65:
                 body.append(("push", rand_operand(rng, params, local, outer)))
             elif c < 0.85 and names:
@@ -192,6 +197,11 @@ def check(run):
             if ans.split(" out=")[0] != exp.split(" out=")[0]:
                 return [f"macro program gives {ans[:120]} but its textual expansion gives {exp[:120]}"]
         elif k != ke:
+            # an operand that became a constant by substitution is rejected by the assembler, the same
+            # constant written out in the expansion already by the parser: the same fault, two reporters
+            too_large = {"ExpressionTooLarge", "Parse.ImmediateTooLarge"}
+            if k in too_large and ke in too_large:
+                return []
             return [f"macro program fails with {k} but its textual expansion fails with {ke}"]
         return []
 
